@@ -10,7 +10,12 @@
     effects), MHD_connection_epoll_update_ (epoll_ctl failure exit), and the
     daemon.c entry points new_connection_process_ (start notification),
     MHD_cleanup_connections (close notification), close_connection (shutdown),
-    resume.
+    resume; interim replies (MHD_HTTP_PROCESSING at MHD_CONNECTION_FULL_REPLY_SENT:
+    back to HEADERS_PROCESSED, response released, the handler is asked again) and
+    upgrade responses (MHD_CONNECTION_HEADERS_SENT: MHD_response_execute_upgrade_ —
+    suspended, upgrade handler called, response released, state UPGRADE; failure:
+    connection_close_error; end: the `urh` branch of resume_suspended_connections —
+    completion notification, straight to the cleanup list, event `upgradeDone`).
 
   The HTTP parsers are abstracted: the read buffer holds *tokens* (`Tok`) —
   "request line complete", "header block complete with this framing", "k body
@@ -64,6 +69,8 @@ structure Resp where
   chunkedBody : Bool := false -- reply uses chunked encoding
   closeHdr : Bool := false    -- forbids keep-alive (Connection: close / HTTP/1.0 flags)
   valid : Bool := true        -- MHD_queue_response accepts object and status code
+  interim : Bool := false     -- status 102 Processing: another response may follow
+  upgrade : Bool := false     -- created by MHD_create_response_for_upgrade (status 101)
   deriving DecidableEq, Repr, Inhabited
 
 inductive Act where
@@ -128,6 +135,7 @@ structure IdleEnv where
   footerFail : Bool := false      -- build_connection_chunked_response_footer fails
   epollAdd : Option Bool := none  -- epoll_ctl(ADD) attempted in MHD_connection_epoll_update_: result
   shutdown : Bool := false        -- daemon->shutdown seen by MHD_queue_response
+  upgradeFail : Bool := false     -- MHD_response_execute_upgrade_ fails (allocation)
   deriving DecidableEq, Repr, Inhabited
 
 inductive WriteRes where
@@ -146,6 +154,8 @@ inductive Ev where
   | shutdownClose                 -- close_connection (daemon shutdown)
   | cleanup                       -- MHD_cleanup_connections frees the connection
   | appQueue (r : Resp) (env : IdleEnv)  -- MHD_queue_response called by the application outside the access handler
+  | upgradeDone                   -- upgraded connection closed by the application (or daemon shutdown) and taken
+                                  -- off the suspended list by resume_suspended_connections
   deriving Repr, Inhabited
 
 /-! ## state -/
@@ -411,7 +421,7 @@ def processBody {σ} (cfg : Cfg) (app : App σ) (env : IdleEnv) : Nat → List T
       else transmitError cfg env { c with buf := .chunkHdr k :: t }
   | _ + 1, tok :: t, c => transmitError cfg env { c with buf := tok :: t }
 
-def bodyFuel (buf : List Tok) : Nat := buf.length + 3
+def bodyFuel (buf : List Tok) : Nat := 2 * buf.length + 3
 
 /-! ## MHD_connection_handle_idle -/
 
@@ -421,6 +431,12 @@ inductive Flow where
   | dead     -- `return MHD_NO` (connection cleaned up)
   | keep     -- `return MHD_YES` without post-processing (upgraded)
   deriving DecidableEq, Repr
+
+/-- the queued response is an interim (102) one -/
+def interimPending {σ} (c : Conn σ) : Bool :=
+  match c.response with
+  | some r => r.interim
+  | none => false
 
 /-- one pass through the `switch (connection->state)` -/
 def idleCase {σ} (cfg : Cfg) (app : App σ) (env : IdleEnv) (c : Conn σ) : Conn σ × List LEv × Flow :=
@@ -513,6 +529,15 @@ def idleCase {σ} (cfg : Cfg) (app : App σ) (env : IdleEnv) (c : Conn σ) : Con
       match c.response with
       | none => ({ c with fault := true }, [], .stop)
       | some r =>
+        if r.upgrade then
+          -- MHD_response_execute_upgrade_: suspend, call the upgrade handler, drop the response
+          if env.upgradeFail then
+            let (c1, l) := closeError { c with state := .upgrade }
+            (c1, l, .again)
+          else
+            let (c1, l) := dropResp { c with state := .upgrade, suspended := true, inEpollSet := false }
+            (c1, [.upgrade] ++ l, .again)
+        else
         ({ c with state := if r.body then (if r.chunkedBody then .chunkedBodyUnready else .normalBodyUnready)
                            else .fullReplySent }, [], .again)
   | .normalBodyReady => (c, [], .stop)
@@ -545,6 +570,11 @@ def idleCase {σ} (cfg : Cfg) (app : App σ) (env : IdleEnv) (c : Conn σ) : Con
       else ({ c with state := .footersSending }, [], .again)
   | .footersSending => (c, [], .stop)
   | .fullReplySent =>
+      if interimPending c then
+        -- MHD_HTTP_PROCESSING: "After this type of response, we allow sending another!"
+        let (c1, l) := dropResp { c with state := .headersProcessed }
+        (c1, [.interimSent] ++ l, .again)
+      else
       let (c1, l) := connectionReset c (c.keepalive = .use ∧ ¬ c.readClosed ∧ ¬ c.discard)
       (c1, l, .again)
   | .closed =>
@@ -620,7 +650,7 @@ def epollUpdate {σ} (cfg : Cfg) (env : IdleEnv) (c : Conn σ) : Out σ :=
         let (c2, l2) := cleanupConnection { c with state := .closed }   -- bypass: no notification
         (c2, l2)
 
-def idleFuel {σ} (c : Conn σ) : Nat := 40 * (c.buf.length + 2)
+def idleFuel {σ} (c : Conn σ) : Nat := 50 * (c.buf.length + 1)
 
 /-- MHD_connection_handle_idle -/
 def handleIdle {σ} (cfg : Cfg) (app : App σ) (env : IdleEnv) (c : Conn σ) : Out σ :=
@@ -719,7 +749,15 @@ def step {σ} (cfg : Cfg) (app : App σ) (c : Conn σ) (e : Ev) : Out σ :=
     | .write r => if c.inCleanup then (c, []) else handleWrite c r
     | .forceClose =>
         if c.inCleanup ∨ c.suspended then (c, []) else closeConn c terminatedWithError
-    | .resume => if c.inCleanup then (c, []) else ({ c with suspended := false }, [])
+    | .resume =>
+        -- an upgraded connection stays on the suspended list until the application closes it
+        if c.inCleanup ∨ c.state = .upgrade then (c, []) else ({ c with suspended := false }, [])
+    | .upgradeDone =>
+        -- resume_suspended_connections, `urh != NULL` branch: notify, straight to the cleanup list
+        if c.inCleanup ∨ c.state ≠ .upgrade ∨ ¬ c.suspended then (c, [])
+        else
+          let (c1, l1) := notify c terminatedCompletedOk
+          ({ c1 with suspended := false, inCleanup := true }, l1)
     | .shutdownClose =>
         -- close_connection: MHD_connection_close_ (DAEMON_SHUTDOWN) and move to the cleanup list
         if c.inCleanup ∨ c.suspended then (c, [])
